@@ -39,7 +39,7 @@ CHECKS["C04"] = dict(
    text="Same Gallina node model; theorems in Properties_C04.v relate running a node (reset, next until StopIteration, any number of epochs) to the list-function reference "
         "semantics sem (map f, chunking with drop_last, concat, filter, identity). Correspondence: three epochs of random pipelines compared with the model and with an independent "
         "Python list reference; concurrency runs (thread and process workers, in_order true/false, max_concurrent, prebatch, randomised per-item delays) checked against the list reference; "
-        "scheduler-driven runs of the real threads replayed step by step on the interleaving model ConcModel.v (Prefetcher, PinMemory's _pin_memory_loop as the same protocol with prefetch_factor 1, ParallelMapper in_order and unordered). (sched) also contains the oracle-only family in which Thread.is_alive() is a yield point (see C06); (conc) draws num_workers from 0..4.",
+        "scheduler-driven runs of the real threads replayed step by step on the interleaving model ConcModel.v (Prefetcher, PinMemory's _pin_memory_loop as the same protocol with prefetch_factor 1, ParallelMapper in_order and unordered). (sched) also contains the oracle-only family in which Thread.is_alive() is a yield point (see C06); (conc) draws num_workers from 0..4. Start-up handshake (InitSnap.v, D20): the fixed get_initial_snapshot never fails a healthy start-up under any interleaving (the pre-fix code is refuted by a 4-move schedule); tie: the real method run on every schedule of <= 9 moves, outcomes proved equal to the model's on every run (harness/tables.py check_initsnap).",
    design="DESIGN.md 4 C04",
    note="Trusted: Coq kernel + vm_compute; deterministic thread scheduler (harness/sched_threads.py) for the interleaving-level cases, delay jitter for the process-worker cases; harness user code. Interleaving-level theorems (every schedule without a reader-join timeout, every reachable state): C04_prefetcher_is_identity and C04_parallel_mapper_is_ordered_map (ParallelMapper in_order, thread workers: delivered items = map_fn over the source prefix, in order, each once; index discipline C04_parallel_mapper_index_discipline). in_order=False: C04_unordered_values_conserved / _no_invention / _multiset_when_drained (value-counting invariant, ConcPMU.v). Process workers are checked by jitter runs + oracle only.",
    technique="Coq proof over hand-written Gallina model + lockstep correspondence (vm_compute) + direct oracle")
